@@ -30,11 +30,11 @@ var sqlFixtures = func() []sqlFixture {
 	b := time.Date(2021, 3, 1, 10, 0, 0, 0, time.UTC)
 	f := sqlFixture{name: "fixed-1Min", key: "S/1Min/O"}
 	for i := 0; i < 6; i++ {
-		f.rows = append(f.rows, sqlRow{b.Add(time.Duration(i) * time.Minute), float32(i) + 1.5, int32(10 * (i + 1))})
+		f.rows = append(f.rows, sqlRow{b.Add(time.Duration(i) * time.Minute), float32(i) + 1.1, int32(10 * (i + 1))})
 	}
 	v := sqlFixture{name: "variable-1H", key: "S/1H/T", variable: true}
 	for i, d := range []time.Duration{500 * time.Millisecond, 20*time.Minute + 250*time.Millisecond, time.Hour, time.Hour + 30*time.Minute + 1750*time.Millisecond, 3 * time.Hour, 3*time.Hour + 1} {
-		v.rows = append(v.rows, sqlRow{b.Add(d), float32(i) + 1.5, int32(10 * (i + 1))})
+		v.rows = append(v.rows, sqlRow{b.Add(d), float32(i) + 1.1, int32(10 * (i + 1))})
 	}
 	return []sqlFixture{f, v}
 }()
@@ -162,7 +162,7 @@ func sqlAtoms(f *sqlFixture) []sqlAtom {
 	ob := []struct {
 		v   float32
 		pos string
-	}{{0.5, "below-all"}, {1.5, "on-first"}, {3.5, "on-middle"}, {4.0, "between-two"}, {6.5, "on-last"}, {9.5, "above-all"}}
+	}{{0.5, "below-all"}, {1.1, "on-first"}, {3.1, "on-middle"}, {3.6, "between-two"}, {6.1, "on-last"}, {9.5, "above-all"}} // stored values are x.1: not representable in binary, so float32(bound) != bound as float64
 	for _, b := range ob {
 		for _, op := range ops {
 			op, bv := op, b.v
